@@ -31,22 +31,22 @@ theorem witnessDouble_resurrects :
 def witnessTorn : List HItem := [.opCrash (.ins r [0, 1, 2]) 5 (some ⟨1, .part⟩)]
 
 theorem witnessTorn_partial_operation :
-    (run 100 witnessTorn).take 2 = [.crashed, .opened [(r, [0])] [.persistNewMkdir, .walNewMkdir, .batchTmpwrite,
+    (run 100 witnessTorn).take 2 = [.crashed [], .opened [(r, [0])] [.persistNewMkdir, .walNewMkdir, .batchTmpwrite,
       .batchFsync, .batchRename, .metaTmpwrite, .metaFsync, .metaRename, .walRewriteUnlink]] ∧
     specJudge [] none (witnessTorn ++ [.restart]) (run 100 witnessTorn) = false := by decide
 
 /-- (3) the same write torn inside a multi-byte character: `read_all` fails, the engine does not open. -/
 def witnessMidchar : List HItem := [.opCrash (.ins r [1]) 5 (some ⟨0, .midchar⟩)]
 
-theorem witnessMidchar_unopenable : run 100 witnessMidchar = [.crashed, .openFailed] := by decide
+theorem witnessMidchar_unopenable : run 100 witnessMidchar = [.crashed [], .openFailed] := by decide
 
 /-- (4) a WAL that holds only a torn line is kept by recovery; the next acknowledged insert is glued onto that line
     and is lost at the following restart. -/
 def witnessTail : List HItem := [.opCrash (.ins r [0]) 5 (some ⟨0, .part⟩), .op (.ins r [2])]
 
 theorem witnessTail_loses_acked_write :
-    run 100 witnessTail = [.crashed, .opened [] [.persistNewMkdir, .walNewMkdir], .ack true [.walOpen, .walAppendWrite, .walAppendFsync],
-      .crashed, .opened [] [.persistNewMkdir, .walNewMkdir]] ∧
+    run 100 witnessTail = [.crashed [], .opened [] [.persistNewMkdir, .walNewMkdir], .ack true [.walOpen, .walAppendWrite, .walAppendFsync] [],
+      .crashed [], .opened [] [.persistNewMkdir, .walNewMkdir]] ∧
     specJudge [] none (witnessTail ++ [.restart]) (run 100 witnessTail) = false := by decide
 
 /-- (5) `delete_shard` unlinks the batch files one at a time before it touches WAL and metadata: a crash after the
@@ -118,7 +118,7 @@ example :
 /-- crash-free and boundary-crash histories do satisfy the Spec (the statement is not vacuous or everywhere false):
     two relations, auto-flush, delete, compaction, a crash inside an insert before its fsync and one after. -/
 example :
-    let h : List HItem := [.op (.ins r [0]), .op (.ins [115] [1]), .op (.ins r [2]), .op (.del r [0]), .op .compactAll,
+    let h : List HItem := [.op (.ins r [0]), .op (.ins [115] [1]), .op (.ins r [2]), .op (.del r [0]), .op (.compactAll []),
       .opCrash (.ins r [3]) 1 none, .opCrash (.ins r [4]) 3 none]
     specJudge [] none (h ++ [.restart]) (run 2 h) = true ∧
       (run 2 h).getLast? = some (.opened [(r, [2, 4]), ([115], [1])] [.persistNewMkdir, .walNewMkdir]) := by
